@@ -189,10 +189,15 @@ def pytorch_stft_frame_computer(
     total_len = (num_frames - 1) * frame_shift - pad_left + frame_length
     pad_right = max(0, total_len - sig_len)
     if pad_left or pad_right:
-        # symmetric padding
-        sig = torch.cat(
-            [sig[:pad_left].flip(0), sig, sig[sig_len - pad_right :].flip(0)]
-        )
+        # symmetric padding; a pad longer than the signal reflects back and forth
+        rev = sig.flip(0)
+        pieces: List[torch.Tensor] = [rev[sig_len - pad_left :], sig]
+        rem, flipped = pad_right, True
+        while rem > 0:
+            pieces.append((rev if flipped else pieces[1])[:rem])
+            rem -= sig_len
+            flipped = not flipped
+        sig = torch.cat(pieces)
     sig = sig.as_strided((num_frames, frame_length), (frame_shift, 1))
     y: List[torch.Tensor] = []
     if include_energy:
